@@ -386,6 +386,10 @@ func (g *bgen) schema(doc string, depth int, allowRef bool) O {
 		if g.Pct(8) {
 			s["discriminator"] = SortedKeys(props)[0]
 		}
+		if g.Pct(12) {
+			delete(s, "type") // "type" is optional
+			g.Label("object:typeless")
+		}
 		return s
 	case k < 60: // map
 		s := O{"type": "object"}
@@ -393,6 +397,10 @@ func (g *bgen) schema(doc string, depth int, allowRef bool) O {
 			s["additionalProperties"] = g.schema(doc, depth+1, allowRef)
 		} else {
 			s["additionalProperties"] = true
+		}
+		if g.Pct(12) {
+			delete(s, "type")
+			g.Label("map:typeless")
 		}
 		return s
 	case k < 71: // array
